@@ -10,7 +10,6 @@
 // `recv_remote_params` contains the role's mandatory ids (initial_source_connection_id, and for
 // a server original_destination_connection_id).
 use super::*;
-use ::core::task::{RawWaker, RawWakerVTable};
 
 /// Work-around for a Kani 0.68 layout bug: the goto type generated for the niche-encoded enum
 /// `ParameterValue` (Bytes + PreferredAddress variants) is LARGER than rustc's `size_of`, so
@@ -24,6 +23,10 @@ pub(crate) unsafe fn stub_alloc_slack(layout: std::alloc::Layout) -> *mut u8 {
     }
 }
 pub(crate) unsafe fn stub_dealloc_leak(_ptr: *mut u8, _layout: std::alloc::Layout) {}
+pub(crate) unsafe fn stub_dealloc_nn_leak(_ptr: ::core::ptr::NonNull<u8>, _layout: std::alloc::Layout) {}
+pub(crate) unsafe fn stub_realloc_nn_slack(ptr: ::core::ptr::NonNull<u8>, layout: std::alloc::Layout, new_size: usize) -> *mut u8 {
+    unsafe { stub_realloc_slack(ptr.as_ptr(), layout, new_size) }
+}
 pub(crate) unsafe fn stub_realloc_slack(ptr: *mut u8, layout: std::alloc::Layout, new_size: usize) -> *mut u8 {
     unsafe {
         let new = std::alloc::alloc_zeroed(std::alloc::Layout::from_size_align_unchecked(new_size + 64, layout.align()));
@@ -72,80 +75,46 @@ fn c18_cid_equality() {
     assert!((a == b) == same_cid(&a, &b));
 }
 
-const USE_WAKER: bool = false;
-static mut WAKES: u32 = 0;
-fn vt_clone(_: *const ()) -> RawWaker {
-    RawWaker::new(::core::ptr::null(), &VTABLE)
-}
-fn vt_wake(_: *const ()) {
-    unsafe { WAKES += 1 }
-}
-fn vt_noop(_: *const ()) {}
-static VTABLE: RawWakerVTable = RawWakerVTable::new(vt_clone, vt_wake, vt_wake, vt_noop);
-fn counting_waker() -> Waker {
-    unsafe { Waker::from_raw(RawWaker::new(::core::ptr::null(), &VTABLE)) }
-}
-
-fn check_not_ready(p: &Parameters) {
-    assert!(!p.is_remote_params_ready());
-    match p.role() {
-        Role::Client => assert!(p.server().is_none() && p.client().is_some()),
-        Role::Server => assert!(p.client().is_none() && p.server().is_some()),
-    }
-    assert!(p.get_remote::<u64>(ParameterId::InitialMaxData).is_none());
-}
-
 /// C18, client role: server parameters (declaring initial_source_connection_id and
-/// original_destination_connection_id, optionally retry_source_connection_id) and the first
-/// Initial packet's source cid arrive in either order. Ready iff both arrived and both declared
-/// cids equal the observed ones; the second event fails with TransportParameter otherwise.
-fn auth_client<const LS: u8, const LO: u8, const LDS: u8, const LDO: u8>(
-    params_first: bool,
-    with_remembered: bool,
-) {
+/// original_destination_connection_id) and the first Initial packet's source cid arrive in either
+/// order (PF = parameters first). Ready iff both arrived and both declared cids equal the observed
+/// ones; the second event fails with TransportParameter otherwise; the first event never decides.
+/// LS/LO: lengths of the observed scid / odcid, LDS/LDO: of the declared ones.
+fn auth_client<const LS: u8, const LO: u8, const LDS: u8, const LDO: u8, const PF: bool>(with_remembered: bool) {
     let odcid = cid_of_len::<LO>();
     let wire_scid = cid_of_len::<LS>();
     let decl_iscid = cid_of_len::<LDS>();
     let decl_odcid = cid_of_len::<LDO>();
 
     let mut server = ServerParameters::new();
-    assert!(server.set(ParameterId::InitialSourceConnectionId, decl_iscid).is_ok());
-    assert!(server.set(ParameterId::OriginalDestinationConnectionId, decl_odcid).is_ok());
+    let s1 = server.set(ParameterId::InitialSourceConnectionId, decl_iscid);
+    let s2 = server.set(ParameterId::OriginalDestinationConnectionId, decl_odcid);
+    assert!(s1.is_ok() && s2.is_ok());
+    ::core::mem::forget((s1, s2));
     let mut client = ClientParameters::new();
-    assert!(client.set(ParameterId::InitialSourceConnectionId, ConnectionId::default()).is_ok());
+    let s3 = client.set(ParameterId::InitialSourceConnectionId, ConnectionId::default());
+    ::core::mem::forget(s3);
 
     let remembered = if with_remembered { Some(ServerParameters::new()) } else { None };
     let mut p = Parameters::new_client(client, remembered, odcid);
     assert!(p.role() == Role::Client);
-    assert!(!p.is_remote_params_received());
+    assert!(!p.is_remote_params_received() && !p.is_remote_params_ready());
+    assert!(p.server().is_none() && p.client().is_some());
     assert!(p.remembered().is_some() == with_remembered);
-    check_not_ready(&p);
-
-    let waker = counting_waker();
-    let mut cx = Context::from_waker(&waker);
-    unsafe { WAKES = 0 };
-    if USE_WAKER {
-        assert!(p.poll_ready(&mut cx).is_pending());
-    }
 
     // first event: never decides, never fails
-    let r1 = if params_first {
-        p.recv_remote_params(server.clone())
-    } else {
-        p.initial_scid_from_peer_need_equal(wire_scid)
-    };
+    let mut server = Some(server);
+    let r1 = if PF { p.recv_remote_params(server.take().unwrap()) } else { p.initial_scid_from_peer_need_equal(wire_scid) };
     assert!(r1.is_ok());
-    assert!(p.is_remote_params_received() == params_first);
-    assert!(p.initial_scid_from_peer().is_some() == !params_first);
-    check_not_ready(&p);
-    assert!(unsafe { WAKES } == 0);
+    ::core::mem::forget(r1);
+    assert!(p.is_remote_params_received() == PF);
+    assert!(p.initial_scid_from_peer().is_some() == !PF);
+    assert!(!p.is_remote_params_ready(), "one event alone never makes the parameters ready");
+    assert!(p.server().is_none());
+    assert!(p.get_remote::<u64>(ParameterId::InitialMaxData).is_none());
 
     // second event: decides
-    let r2 = if params_first {
-        p.initial_scid_from_peer_need_equal(wire_scid)
-    } else {
-        p.recv_remote_params(server.clone())
-    };
+    let r2 = if PF { p.initial_scid_from_peer_need_equal(wire_scid) } else { p.recv_remote_params(server.take().unwrap()) };
     let authentic = same_cid(&decl_iscid, &wire_scid) && same_cid(&decl_odcid, &odcid);
     kani::cover!(authentic || LS != LDS || LO != LDO, "cids authentic");
     kani::cover!(!same_cid(&decl_iscid, &wire_scid), "initial scid mismatch");
@@ -155,22 +124,15 @@ fn auth_client<const LS: u8, const LO: u8, const LDS: u8, const LDO: u8>(
         assert!(p.is_remote_params_ready());
         assert!(p.server().is_some() && p.client().is_some());
         assert!(p.remembered().is_none(), "remembered parameters dropped once the real ones are in");
-        if USE_WAKER {
-            assert!(p.poll_ready(&mut cx).is_ready());
+        match p.get_remote::<ConnectionId>(ParameterId::InitialSourceConnectionId) {
+            Some(c) => assert!(same_cid(&c, &decl_iscid)),
+            None => assert!(false),
         }
-        assert!(!USE_WAKER || unsafe { WAKES } == 1, "the waiter was woken exactly once");
-        assert!(
-            p.get_remote::<ConnectionId>(ParameterId::InitialSourceConnectionId) == Some(decl_iscid)
-        );
     } else {
         assert!(matches!(&r2, Err(e) if e.kind() == ErrorKind::TransportParameter));
         assert!(!p.is_remote_params_ready());
-        if USE_WAKER {
-        assert!(p.poll_ready(&mut cx).is_pending());
+        assert!(p.server().is_none());
     }
-        assert!(unsafe { WAKES } == 0);
-    }
-    ::core::mem::forget(r1);
     ::core::mem::forget(r2);
     ::core::mem::forget(server);
     ::core::mem::forget(p);
@@ -178,141 +140,157 @@ fn auth_client<const LS: u8, const LO: u8, const LDS: u8, const LDO: u8>(
 
 /// C18 client, TLS extension before the first Initial packet; scid 8 bytes, odcid 8 bytes.
 #[kani::proof]
+#[kani::unwind(10)]
 #[kani::stub(std::alloc::alloc, stub_alloc_slack)]
 #[kani::stub(std::alloc::dealloc, stub_dealloc_leak)]
 #[kani::stub(std::alloc::realloc, stub_realloc_slack)]
-#[kani::unwind(10)]
+#[kani::stub(alloc::alloc::dealloc_nonnull, stub_dealloc_nn_leak)]
+#[kani::stub(alloc::alloc::realloc_nonnull, stub_realloc_nn_slack)]
 fn c18_auth_client_params_first() {
-    auth_client::<8, 8, 8, 8>(true, kani::any());
+    auth_client::<8, 8, 8, 8, true>(kani::any());
 }
 
 /// C18 client, first Initial packet before the TLS extension.
 #[kani::proof]
+#[kani::unwind(10)]
 #[kani::stub(std::alloc::alloc, stub_alloc_slack)]
 #[kani::stub(std::alloc::dealloc, stub_dealloc_leak)]
 #[kani::stub(std::alloc::realloc, stub_realloc_slack)]
-#[kani::unwind(10)]
+#[kani::stub(alloc::alloc::dealloc_nonnull, stub_dealloc_nn_leak)]
+#[kani::stub(alloc::alloc::realloc_nonnull, stub_realloc_nn_slack)]
 fn c18_auth_client_packet_first() {
-    auth_client::<8, 8, 8, 8>(false, kani::any());
+    auth_client::<8, 8, 8, 8, false>(false);
 }
 
-/// C18 client, boundary lengths: 20-byte scid, empty odcid (symbolic arrival order).
+/// C18 client, boundary lengths: 20-byte scid, empty odcid.
 #[kani::proof]
-#[kani::stub(std::alloc::alloc, stub_alloc_slack)]
-#[kani::stub(std::alloc::dealloc, stub_dealloc_leak)]
-#[kani::stub(std::alloc::realloc, stub_realloc_slack)]
 #[kani::unwind(22)]
-fn c18_auth_client_len_20_0() {
-    auth_client::<20, 0, 20, 0>(kani::any(), false);
-}
-
-/// C18 client, declared cids of another length than the observed ones: always refused.
-#[kani::proof]
 #[kani::stub(std::alloc::alloc, stub_alloc_slack)]
 #[kani::stub(std::alloc::dealloc, stub_dealloc_leak)]
 #[kani::stub(std::alloc::realloc, stub_realloc_slack)]
+#[kani::stub(alloc::alloc::dealloc_nonnull, stub_dealloc_nn_leak)]
+#[kani::stub(alloc::alloc::realloc_nonnull, stub_realloc_nn_slack)]
+fn c18_auth_client_len_20_0() {
+    auth_client::<20, 0, 20, 0, true>(false);
+}
+
+/// C18 client, declared odcid of another length than the observed one: always refused.
+#[kani::proof]
 #[kani::unwind(10)]
+#[kani::stub(std::alloc::alloc, stub_alloc_slack)]
+#[kani::stub(std::alloc::dealloc, stub_dealloc_leak)]
+#[kani::stub(std::alloc::realloc, stub_realloc_slack)]
+#[kani::stub(alloc::alloc::dealloc_nonnull, stub_dealloc_nn_leak)]
+#[kani::stub(alloc::alloc::realloc_nonnull, stub_realloc_nn_slack)]
 fn c18_auth_client_len_mismatch() {
-    auth_client::<8, 8, 8, 4>(kani::any(), false);
+    auth_client::<8, 8, 8, 4, false>(false);
 }
 
 /// C18, server role: client parameters (declaring initial_source_connection_id) and the first
-/// Initial packet's source cid, either order.
-fn auth_server<const LW: u8, const LD: u8>(params_first: bool) {
+/// Initial packet's source cid, either order (PF = parameters first).
+fn auth_server<const LW: u8, const LD: u8, const PF: bool>() {
     let wire_scid = cid_of_len::<LW>();
     let decl_iscid = cid_of_len::<LD>();
 
     let mut client = ClientParameters::new();
-    assert!(client.set(ParameterId::InitialSourceConnectionId, decl_iscid).is_ok());
+    let s1 = client.set(ParameterId::InitialSourceConnectionId, decl_iscid);
+    assert!(s1.is_ok());
+    ::core::mem::forget(s1);
     let mut server = ServerParameters::new();
-    assert!(server.set(ParameterId::InitialSourceConnectionId, ConnectionId::default()).is_ok());
+    let s2 = server.set(ParameterId::InitialSourceConnectionId, ConnectionId::default());
+    ::core::mem::forget(s2);
 
     let mut p = Parameters::new_server(server);
     assert!(p.role() == Role::Server);
-    assert!(!p.is_remote_params_received());
-    check_not_ready(&p);
-    let waker = counting_waker();
-    let mut cx = Context::from_waker(&waker);
-    unsafe { WAKES = 0 };
-    if USE_WAKER {
-        assert!(p.poll_ready(&mut cx).is_pending());
-    }
+    assert!(!p.is_remote_params_received() && !p.is_remote_params_ready());
+    assert!(p.client().is_none() && p.server().is_some());
 
-    let r1 = if params_first {
-        p.recv_remote_params(client.clone())
-    } else {
-        p.initial_scid_from_peer_need_equal(wire_scid)
-    };
+    let mut client = Some(client);
+    let r1 = if PF { p.recv_remote_params(client.take().unwrap()) } else { p.initial_scid_from_peer_need_equal(wire_scid) };
     assert!(r1.is_ok());
-    assert!(p.is_remote_params_received() == params_first);
-    check_not_ready(&p);
+    ::core::mem::forget(r1);
+    assert!(p.is_remote_params_received() == PF);
+    assert!(!p.is_remote_params_ready(), "one event alone never makes the parameters ready");
+    assert!(p.client().is_none());
 
-    let r2 = if params_first {
-        p.initial_scid_from_peer_need_equal(wire_scid)
-    } else {
-        p.recv_remote_params(client.clone())
-    };
+    let r2 = if PF { p.initial_scid_from_peer_need_equal(wire_scid) } else { p.recv_remote_params(client.take().unwrap()) };
     let authentic = same_cid(&decl_iscid, &wire_scid);
     kani::cover!(authentic || LW != LD, "authentic cid");
     kani::cover!(!authentic || (LW == 0 && LD == 0), "different cid");
     if authentic {
         assert!(r2.is_ok());
         assert!(p.is_remote_params_ready());
-        if USE_WAKER {
-            assert!(p.poll_ready(&mut cx).is_ready());
+        match p.get_remote::<ConnectionId>(ParameterId::InitialSourceConnectionId) {
+            Some(c) => assert!(same_cid(&c, &decl_iscid)),
+            None => assert!(false),
         }
-        assert!(!USE_WAKER || unsafe { WAKES } == 1);
-        assert!(
-            p.get_remote::<ConnectionId>(ParameterId::InitialSourceConnectionId) == Some(decl_iscid)
-        );
     } else {
         assert!(matches!(&r2, Err(e) if e.kind() == ErrorKind::TransportParameter));
         assert!(!p.is_remote_params_ready());
-        assert!(unsafe { WAKES } == 0);
+        assert!(p.client().is_none());
     }
-    ::core::mem::forget(r1);
     ::core::mem::forget(r2);
     ::core::mem::forget(client);
     ::core::mem::forget(p);
 }
 
-/// C18 server, client parameters before / after the first Initial packet (symbolic order), 8-byte cids.
+/// C18 server, client parameters before the first Initial packet, 8-byte cids.
 #[kani::proof]
+#[kani::unwind(10)]
 #[kani::stub(std::alloc::alloc, stub_alloc_slack)]
 #[kani::stub(std::alloc::dealloc, stub_dealloc_leak)]
 #[kani::stub(std::alloc::realloc, stub_realloc_slack)]
+#[kani::stub(alloc::alloc::dealloc_nonnull, stub_dealloc_nn_leak)]
+#[kani::stub(alloc::alloc::realloc_nonnull, stub_realloc_nn_slack)]
+fn c18_auth_server_params_first() {
+    auth_server::<8, 8, true>();
+}
+
+/// C18 server, first Initial packet before the client parameters, 8-byte cids.
+#[kani::proof]
 #[kani::unwind(10)]
-fn c18_auth_server_len_8() {
-    auth_server::<8, 8>(kani::any());
+#[kani::stub(std::alloc::alloc, stub_alloc_slack)]
+#[kani::stub(std::alloc::dealloc, stub_dealloc_leak)]
+#[kani::stub(std::alloc::realloc, stub_realloc_slack)]
+#[kani::stub(alloc::alloc::dealloc_nonnull, stub_dealloc_nn_leak)]
+#[kani::stub(alloc::alloc::realloc_nonnull, stub_realloc_nn_slack)]
+fn c18_auth_server_packet_first() {
+    auth_server::<8, 8, false>();
 }
 
 /// C18 server, boundary lengths 20 and 0.
 #[kani::proof]
+#[kani::unwind(22)]
 #[kani::stub(std::alloc::alloc, stub_alloc_slack)]
 #[kani::stub(std::alloc::dealloc, stub_dealloc_leak)]
 #[kani::stub(std::alloc::realloc, stub_realloc_slack)]
-#[kani::unwind(22)]
+#[kani::stub(alloc::alloc::dealloc_nonnull, stub_dealloc_nn_leak)]
+#[kani::stub(alloc::alloc::realloc_nonnull, stub_realloc_nn_slack)]
 fn c18_auth_server_len_20() {
-    auth_server::<20, 20>(kani::any());
+    auth_server::<20, 20, false>();
 }
 
 #[kani::proof]
+#[kani::unwind(10)]
 #[kani::stub(std::alloc::alloc, stub_alloc_slack)]
 #[kani::stub(std::alloc::dealloc, stub_dealloc_leak)]
 #[kani::stub(std::alloc::realloc, stub_realloc_slack)]
-#[kani::unwind(10)]
+#[kani::stub(alloc::alloc::dealloc_nonnull, stub_dealloc_nn_leak)]
+#[kani::stub(alloc::alloc::realloc_nonnull, stub_realloc_nn_slack)]
 fn c18_auth_server_len_0() {
-    auth_server::<0, 0>(kani::any());
+    auth_server::<0, 0, true>();
 }
 
 /// C18 server, declared cid of another length than the observed one: always refused.
 #[kani::proof]
+#[kani::unwind(10)]
 #[kani::stub(std::alloc::alloc, stub_alloc_slack)]
 #[kani::stub(std::alloc::dealloc, stub_dealloc_leak)]
 #[kani::stub(std::alloc::realloc, stub_realloc_slack)]
-#[kani::unwind(10)]
+#[kani::stub(alloc::alloc::dealloc_nonnull, stub_dealloc_nn_leak)]
+#[kani::stub(alloc::alloc::realloc_nonnull, stub_realloc_nn_slack)]
 fn c18_auth_server_len_mismatch() {
-    auth_server::<8, 5>(kani::any());
+    auth_server::<8, 5, true>();
 }
 
 /// C18 (pending — suspected defect): RFC 9000 §7.3: a client that received a Retry packet must
@@ -323,6 +301,8 @@ fn c18_auth_server_len_mismatch() {
 #[kani::stub(std::alloc::alloc, stub_alloc_slack)]
 #[kani::stub(std::alloc::dealloc, stub_dealloc_leak)]
 #[kani::stub(std::alloc::realloc, stub_realloc_slack)]
+#[kani::stub(alloc::alloc::dealloc_nonnull, stub_dealloc_nn_leak)]
+#[kani::stub(alloc::alloc::realloc_nonnull, stub_realloc_nn_slack)]
 #[kani::unwind(10)]
 fn c18_auth_client_retry_scid() {
     let odcid = cid_of_len::<8>();
@@ -332,16 +312,18 @@ fn c18_auth_client_retry_scid() {
     let declares_retry: bool = kani::any();
 
     let mut server = ServerParameters::new();
-    assert!(server.set(ParameterId::InitialSourceConnectionId, wire_scid).is_ok());
-    assert!(server.set(ParameterId::OriginalDestinationConnectionId, odcid).is_ok());
+    ::core::mem::forget(server.set(ParameterId::InitialSourceConnectionId, wire_scid));
+    ::core::mem::forget(server.set(ParameterId::OriginalDestinationConnectionId, odcid));
     if declares_retry {
-        assert!(server.set(ParameterId::RetrySourceConnectionId, decl_retry).is_ok());
+        ::core::mem::forget(server.set(ParameterId::RetrySourceConnectionId, decl_retry));
     }
     let mut client = ClientParameters::new();
-    assert!(client.set(ParameterId::InitialSourceConnectionId, ConnectionId::default()).is_ok());
+    ::core::mem::forget(client.set(ParameterId::InitialSourceConnectionId, ConnectionId::default()));
     let mut p = Parameters::new_client(client, None, odcid);
     p.retry_scid_from_server_need_equal(retry_wire);
-    assert!(p.initial_scid_from_peer_need_equal(wire_scid).is_ok());
+    let r0 = p.initial_scid_from_peer_need_equal(wire_scid);
+    assert!(r0.is_ok());
+    ::core::mem::forget(r0);
     let r = p.recv_remote_params(server);
     let authentic = declares_retry && same_cid(&decl_retry, &retry_wire);
     kani::cover!(authentic, "retry cid authentic");
@@ -361,50 +343,44 @@ fn any_duration() -> Duration {
 
 /// C18: effective idle timeout == the smaller non-zero of the two advertised values (absent == 0;
 /// both zero: no timeout, reported as Duration::MAX); None until the peer's parameters are ready.
-#[kani::proof]
-#[kani::stub(std::alloc::alloc, stub_alloc_slack)]
-#[kani::stub(std::alloc::dealloc, stub_dealloc_leak)]
-#[kani::stub(std::alloc::realloc, stub_realloc_slack)]
-#[kani::unwind(10)]
-fn c18_idle_timeout_negotiated() {
-    let as_client: bool = kani::any();
+/// The `Parameters` are built from the private fields in the state the two events leave behind
+/// (both sets installed; `ready` symbolic), so that only the negotiation itself is executed.
+fn idle_negotiated<const AS_CLIENT: bool>() {
     let local = any_duration();
     let remote = any_duration();
     let local_present: bool = kani::any();
     let remote_present: bool = kani::any();
-    let cid = ConnectionId::from_slice(&[1, 2, 3, 4]);
+    let ready: bool = kani::any();
+    let cid = ConnectionId::default();
 
     let mut client = ClientParameters::new();
     let mut server = ServerParameters::new();
-    assert!(client.set(ParameterId::InitialSourceConnectionId, cid).is_ok());
-    assert!(server.set(ParameterId::InitialSourceConnectionId, cid).is_ok());
-    assert!(server.set(ParameterId::OriginalDestinationConnectionId, cid).is_ok());
-    let (c_idle, c_present, s_idle, s_present) = if as_client {
-        (local, local_present, remote, remote_present)
-    } else {
-        (remote, remote_present, local, local_present)
-    };
+    let (c_idle, c_present, s_idle, s_present) =
+        if AS_CLIENT { (local, local_present, remote, remote_present) } else { (remote, remote_present, local, local_present) };
     if c_present {
-        assert!(client.set(ParameterId::MaxIdleTimeout, c_idle).is_ok());
+        let r = client.set(ParameterId::MaxIdleTimeout, c_idle);
+        assert!(r.is_ok());
+        ::core::mem::forget(r);
     }
     if s_present {
-        assert!(server.set(ParameterId::MaxIdleTimeout, s_idle).is_ok());
+        let r = server.set(ParameterId::MaxIdleTimeout, s_idle);
+        assert!(r.is_ok());
+        ::core::mem::forget(r);
     }
-    let mut p = if as_client {
-        let mut p = Parameters::new_client(client, None, cid);
-        assert!(p.negotiated_max_idle_timeout().is_none());
-        assert!(p.recv_remote_params(server).is_ok());
-        p
-    } else {
-        let mut p = Parameters::new_server(server);
-        assert!(p.negotiated_max_idle_timeout().is_none());
-        assert!(p.recv_remote_params(client).is_ok());
-        p
+    let local_bit = if AS_CLIENT { Parameters::CLIENT_READY } else { Parameters::SERVER_READY };
+    let p = Parameters {
+        state: if ready { Parameters::CLIENT_READY | Parameters::SERVER_READY } else { local_bit },
+        client: Arc::new(client),
+        server: Arc::new(server),
+        remembered: None,
+        requirements: if AS_CLIENT {
+            Requirements::Client { initial_scid: Some(cid), retry_scid: None, origin_dcid: cid }
+        } else {
+            Requirements::Server { initial_scid: Some(cid) }
+        },
+        wakers: Vec::new(),
     };
-    assert!(p.negotiated_max_idle_timeout().is_none());
-    assert!(p.initial_scid_from_peer_need_equal(cid).is_ok());
-    assert!(p.is_remote_params_ready());
-
+    assert!(p.is_remote_params_ready() == ready);
     let l = if local_present { local } else { Duration::ZERO };
     let r = if remote_present { remote } else { Duration::ZERO };
     let want = if l == Duration::ZERO && r == Duration::ZERO {
@@ -419,10 +395,37 @@ fn c18_idle_timeout_negotiated() {
         r
     };
     let got = p.negotiated_max_idle_timeout();
-    kani::cover!(l != Duration::ZERO && r != Duration::ZERO && l < r, "local value is the smaller");
-    kani::cover!(l != Duration::ZERO && r != Duration::ZERO && r < l, "remote value is the smaller");
-    kani::cover!(l == Duration::ZERO && r != Duration::ZERO, "only the peer advertises");
-    kani::cover!(!local_present && !remote_present, "nobody advertises");
-    assert!(got == Some(want));
+    kani::cover!(ready && l != Duration::ZERO && r != Duration::ZERO && l < r, "local value is the smaller");
+    kani::cover!(ready && l != Duration::ZERO && r != Duration::ZERO && r < l, "remote value is the smaller");
+    kani::cover!(ready && l == Duration::ZERO && r != Duration::ZERO, "only the peer advertises");
+    kani::cover!(ready && !local_present && !remote_present, "nobody advertises");
+    kani::cover!(!ready, "peer parameters not ready yet");
+    if ready {
+        assert!(got == Some(want), "effective idle timeout is the smaller non-zero advertised value");
+    } else {
+        assert!(got.is_none(), "no negotiated value before the peer's parameters are ready");
+    }
     ::core::mem::forget(p);
+}
+
+#[kani::proof]
+#[kani::unwind(10)]
+#[kani::stub(std::alloc::alloc, stub_alloc_slack)]
+#[kani::stub(std::alloc::dealloc, stub_dealloc_leak)]
+#[kani::stub(std::alloc::realloc, stub_realloc_slack)]
+#[kani::stub(alloc::alloc::dealloc_nonnull, stub_dealloc_nn_leak)]
+#[kani::stub(alloc::alloc::realloc_nonnull, stub_realloc_nn_slack)]
+fn c18_idle_timeout_negotiated_client() {
+    idle_negotiated::<true>();
+}
+
+#[kani::proof]
+#[kani::unwind(10)]
+#[kani::stub(std::alloc::alloc, stub_alloc_slack)]
+#[kani::stub(std::alloc::dealloc, stub_dealloc_leak)]
+#[kani::stub(std::alloc::realloc, stub_realloc_slack)]
+#[kani::stub(alloc::alloc::dealloc_nonnull, stub_dealloc_nn_leak)]
+#[kani::stub(alloc::alloc::realloc_nonnull, stub_realloc_nn_slack)]
+fn c18_idle_timeout_negotiated_server() {
+    idle_negotiated::<false>();
 }
